@@ -112,6 +112,31 @@ Theorem parameters_agreement_partial :
 Proof. exact parameters_agreement_x. Qed.
 Print Assumptions parameters_agreement_partial.
 
+(* run level, both directions: for EVERY message sequence, an endpoint that completes by accepting the Finished the
+   honest peer computed over its schedule has, byte for byte, the peer's transcript: no handshake message (any
+   position, any type, either direction - the transcript holds both what was received and what was sent) differs
+   from what the peer hashed.  Contrapositive = "changing any byte of any handshake message prevents completion on the
+   endpoint that received it", given Finished provenance. *)
+Theorem tamper_detected_run_partial :
+  forall O, ideal_crypto O ->
+  (forall cc ms finm cs' outC kF eS,
+     let cs := run O cc (client_started O cc) ms in
+     client_handle_finished O cc cs finm = (OOk, cs', outC) ->
+     finm = o_build_fin O (ks_finished O kF eS) ->
+     forall pre a a' post post', k_tr kF = pre ++ a ++ post -> k_tr (the_ks cs) = pre ++ a' ++ post' ->
+                                 framed a -> framed a' -> a = a') /\
+  (forall sc ms m ss' out0 kC eC,
+     let ss := run O sc (init_server sc) ms in
+     t_state ss = SERVER_EXPECT_FINISHED ->
+     server_handle_finished O sc ss m = (OOk, ss', out0) ->
+     m = o_build_fin O (ks_finished O kC eC) ->
+     exists s0, ss = server_expect_finished O s0 /\
+                k_tr (the_ks s0) = k_tr kC /\ k_alg (the_ks s0) = k_alg kC /\ t_dec s0 = eC /\
+                (forall pre a a' post post', k_tr kC = pre ++ a ++ post -> k_tr (the_ks s0) = pre ++ a' ++ post' ->
+                                             framed a -> framed a' -> a = a')).
+Proof. exact (fun O H => conj (client_no_altered_message_x O H) (server_agreement_run_x O H)). Qed.
+Print Assumptions tamper_detected_run_partial.
+
 (* PARTIAL (per step): if ONE handshake message of the receiver's transcript differs from what the honest sender
    hashed (both framed, any position, any other content), the sender's Finished is refused: the client does not
    reach CLIENT_POST_HANDSHAKE, the server answers decrypt_error and stays where it was *)
@@ -164,6 +189,6 @@ Proof. exact version_agreement_x. Qed.
 Print Assumptions version_agreement_partial.
 
 (* non-vacuity: the premises are satisfiable (a concrete oracle record), and with it an honest pair completes *)
-Theorem ideal_crypto_satisfiable : exists O, ideal_crypto O.
-Proof. exact (ex_intro _ toyO toy_ideal). Qed.
-Print Assumptions ideal_crypto_satisfiable.
+Theorem premises_satisfiable : exists O, ideal_crypto O /\ codec_ok O.
+Proof. exact (ex_intro _ toyO2 (conj toy2_ideal toy2_codec)). Qed.
+Print Assumptions premises_satisfiable.
